@@ -116,6 +116,7 @@ inductive Ev
   | newErr (inst : Nat)
   | end_
   | gor (n : Nat)
+  | site (op : Nat) (fn : String)      -- the library function that issued store operation `op`
   deriving Repr, DecidableEq, Inhabited
 
 structure TEv where
